@@ -397,6 +397,10 @@ def call_loops(target):
             m.raised = Or(m.raised, ctx.fresh_bool('hv_raised'))  # failures only accumulate
 
         reg.loops[(key, 'for process_response in mw_resp_stack or dependent_mw_resp_stack')] = LoopSpec(name='for#3', inv=inv3, havoc=havoc3)
+        # ... and under their ordinals as well (for#0..for#3 on the unchanged tree, see contracts/loop_headers.json): when a header text changes
+        # (the iterable named in a local, a renamed loop variable) the ordinal still finds the contract; when loops are reordered the header does
+        for _hdr, _spec in [(h, sp) for (k, h), sp in list(reg.loops.items()) if k == key and h.startswith('for ')]:
+            reg.loops[(key, _spec.name)] = _spec
         reg.inline.update(['falcon.asgi.app:_validate_asgi_scope'])
 
     return setup
